@@ -533,8 +533,18 @@ def explicit_range_wins(ctx, rule, cm, qual, param):
     """the stored prange is only a default: every assignment `<param> = self.prange` is reachable only when the caller gave no range"""
     from ..srcmodel import established_false
     f = cm.func(qual)
-    st = [s_ for s_ in statements(f) if isinstance(s_, ast.Assign) and unparse(s_.targets[0]) == param and 'self.prange' in unparse(s_.value) and not isinstance(s_.value, ast.BoolOp)]
-    boolop = [s_ for s_ in statements(f) if isinstance(s_, ast.Assign) and unparse(s_.targets[0]) == param and isinstance(s_.value, ast.BoolOp) and 'self.prange' in unparse(s_.value)]
+
+    def mentions_prange(v):
+        if 'self.prange' in unparse(v):
+            return True
+        for y in walk(v):       # through a local that only holds self.prange
+            if isinstance(y, ast.Name):
+                d_ = find_def(f, y.id)
+                if len(d_) == 1 and unparse(d_[0].value) == 'self.prange':
+                    return True
+        return False
+    st = [s_ for s_ in statements(f) if isinstance(s_, ast.Assign) and unparse(s_.targets[0]) == param and mentions_prange(s_.value) and not isinstance(s_.value, ast.BoolOp)]
+    boolop = [s_ for s_ in statements(f) if isinstance(s_, ast.Assign) and unparse(s_.targets[0]) == param and isinstance(s_.value, ast.BoolOp) and mentions_prange(s_.value)]
     for s_ in boolop:
         first = unparse(s_.value.values[0])
         ctx.check(rule, 'correlators.py:%s#explicit-range-wins' % qual, first == param and isinstance(s_.value.op, ast.Or), 'explicit range first, stored range as fallback',
